@@ -19,7 +19,8 @@ LEVEL_TEXT = ("Every obligation is a statement about all codes -200..999 or all 
               "decided exactly from the type-checked source of the StdBackend instantiation; "
               "the predicates contain only comparisons with constants, so the computed code "
               "sets are exact, and the message/sol forwarding clauses are path properties of "
-              "a loop-free guard structure.")
+              "a loop-free guard structure."
+              "  Also decided (added after the seeded rounds): a coded error caught by the driver is reported with its own code.")
 LEVEL_NOTE = ("Trusted: clang 14 front end/CFG, tool/mpx.cc, mpsa IntervalSet. Vendor backends "
               "outside the repository are not parsed.")
 DESIGN_REF = "DESIGN.md section 4, C10"
